@@ -6,6 +6,11 @@ use crate::cache::error::{CacheError, Result};
 use crate::server::timer;
 use dashmap::mapref::entry::Entry;
 use dashmap::mapref::multiple::RefMulti;
+#[cfg(memcrs_verif)]
+use crate::verif::TracedMap as DashMap;
+#[cfg(memcrs_verif)]
+use dashmap::ReadOnlyView;
+#[cfg(not(memcrs_verif))]
 use dashmap::{DashMap, ReadOnlyView};
 use std::sync::atomic::{AtomicU64, Ordering};
 use std::sync::Arc;
